@@ -462,7 +462,8 @@ CHAR_ALPHABET = ["[", "]", "\\", "/", "=", "#", "a", "b", "1", " ", "\n", ":", "
 _CHAR_RE = re.compile(r"bold|red|[\[\]\\/=#ab1 \n:]")
 _CHAR_FULL = re.compile(r"(?:bold|red|[\[\]\\/=#ab1 \n:])*\Z")
 
-TOKEN_ALPHABET = ["[red]", "[blue]", "[bold]", "[not bold]", "[/]", "[/red]", "[/blue]", "[/bold]", "x", "\\", "\n", "[b]"]
+TOKEN_ALPHABET = ["[red]", "[blue]", "[bold]", "[/]", "[/red]", "[/blue]", "x", "\\", "\n", "[not bold]", "[/bold]", "[b]"]
+TOKEN_ALPHABET_QUICK = TOKEN_ALPHABET[:9]
 
 RANDOM_SYMBOLS = (
     ["[", "]", "[", "]", "[/", "[/]", "\\", "\\\\", "/", "=", "#", "a", "b", "1", " ", "\n", ":", "B", "x"]
@@ -649,8 +650,8 @@ def _work(job):
     counts = res["clauses"]
     ntpl = len(TEMPLATES)
     if kind in ("chars", "tokens"):
-        _, length, lo, hi, max_len = job
-        alphabet = CHAR_ALPHABET if kind == "chars" else TOKEN_ALPHABET
+        _, length, lo, hi, max_len, n_tokens = job
+        alphabet = CHAR_ALPHABET if kind == "chars" else TOKEN_ALPHABET[:n_tokens]
         for index in range(lo, hi):
             s = _decode(index, length, alphabet)
             if kind == "tokens" and _in_char_space(s, max_len):
@@ -659,7 +660,8 @@ def _work(job):
             if "[" in s:
                 res["nontrivial"] += 1
             f = check_markup(s, counts)
-            templates = (0, 1 + index % (ntpl - 1))
+            # embedding is only interesting when s contains something escape() could have to act on
+            templates = (0, 1 + index % (ntpl - 1)) if ("[" in s or "\\" in s) else ()
             f += check_escape(s, counts, templates)
             if f:
                 _record(res, f, s, templates)
@@ -715,13 +717,15 @@ def _jobs(tier: str, seed: int):
     max_len = 5 if quick else 6
     jobs = []
     chunk = 30000
-    for kind, alphabet in (("chars", CHAR_ALPHABET), ("tokens", TOKEN_ALPHABET)):
+    token_alphabet = TOKEN_ALPHABET_QUICK if quick else TOKEN_ALPHABET
+    for kind, alphabet in (("chars", CHAR_ALPHABET), ("tokens", token_alphabet)):
         for length in range(0, max_len + 1):
             total = len(alphabet) ** length
-            for lo in range(0, total, chunk):
-                jobs.append((kind, length, lo, min(total, lo + chunk), max_len))
-    n_random = 24000 if quick else 400000
-    n_trees = 24000 if quick else 400000
+            step = chunk if kind == "chars" else chunk // 3
+            for lo in range(0, total, step):
+                jobs.append((kind, length, lo, min(total, lo + step), max_len, len(alphabet)))
+    n_random = 24000 if quick else 200000
+    n_trees = 24000 if quick else 200000
     per = 2000
     for i in range(n_random // per):
         jobs.append(("random", seed * 1000003 + i, per, max_len + 1))
@@ -790,7 +794,7 @@ def run(tier: str, seed: int) -> dict:
         "with aliased spellings and overlapping closes; each string is also used as the argument s of escape(). A case is "
         "non-trivial when the string contains '['; (1),(2) are distinct by construction, (3),(4) are counted by distinct hash.",
         "bound": "L=%d; character alphabet %r (%d symbols); token alphabet %r; %d random strings <= 40 chars; %d generated documents "
-        "<= 14 steps; %d embedding templates; emoji=False; empty theme" % (max_len, CHAR_ALPHABET, len(CHAR_ALPHABET), TOKEN_ALPHABET, n_random, n_trees, len(TEMPLATES)),
+        "<= 14 steps; %d embedding templates; emoji=False; empty theme" % (max_len, CHAR_ALPHABET, len(CHAR_ALPHABET), TOKEN_ALPHABET_QUICK if tier == "quick" else TOKEN_ALPHABET, n_random, n_trees, len(TEMPLATES)),
         "samples": total["samples"],
         "clauses": dict(sorted(total["clauses"].items())),
         "failures": failures,
